@@ -330,6 +330,17 @@ def scenarios(tier):
                                    sequences=seqs)
                 jobs.append((scn, 0 if quick else 1,
                              40 if quick else 1200, 1))
+    # every policy program of C08 stopped at every point: wake-ups of
+    # delayed tasks, wait-after completions, timeout timers and remaining
+    # with-items iterations are late events too
+    for name, prog, res, extra in _c08.programs(tier):
+        if 'menu' in extra:
+            continue
+        scn = StopPolicyScenario(
+            'policy/%s/stop_root' % name, prog, results=res,
+            menu=['stop:SUCCESS', 'stop:ERROR', 'stop:CANCELLED'],
+            max_cmds=1, **extra)
+        jobs.append((scn, 0 if quick else 1, 40 if quick else 1200, 1))
     return jobs
 
 
